@@ -1,3 +1,4 @@
 import Norad.Props.C11
 import Norad.Props.C06
 import Norad.Props.C01
+import Norad.Props.C04
